@@ -85,8 +85,7 @@ template <class Base> struct CacheRunner : public Runner {
 			o << " ret=";
 			for (long j = 0; j < a[2]; ++j) { if (j) o << ","; o << f(l[j]); }
 		} else if (cmd == "Q") {
-			std::size_t cached = cm.getCacheRowSize(a[0]);
-			std::size_t foot = std::max<std::size_t>(cached, a[2]) - a[1];      // cells the call may write
+			std::size_t foot = a[2] - a[1];      // exactly the cells [start,end) may be written: guard cells on BOTH sides
 			std::vector<double> buf(foot + 16, -777.0);
 			const Exposed<Base>& ccm = cm;
 			ccm.row(a[0], a[1], a[2], buf.data() + 8);
